@@ -449,6 +449,8 @@ type client struct {
 
 	decodeErrStep int
 	lastPushSeq   uint64
+
+	rc *realClient // C23client: the peer is a real pkg/client session
 }
 
 func (cl *client) sends() []*sentFrame {
